@@ -464,7 +464,7 @@ fn deep_list_job(ctx: &Ctx, len: usize) -> Stats {
     st
 }
 
-const OPERAND_TEXTS: [&str; 14] = ["a", "b", "-a", "a & b", "a | b", "a ^ b", "true", "false", "c", "a => c", "-(b | c)", "a <=> b", "exists c # c & a", "[a, b] = 1"];
+const OPERAND_TEXTS: [&str; 19] = ["a", "b", "-a", "a & b", "a | b", "a ^ b", "true", "false", "c", "a => c", "-(b | c)", "a <=> b", "exists c # c & a", "[a, b] = 1", "[a] <= [b]", "[a, c] > [b]", "[b] = [c, a]", "[[a] < [b], c] >= [b]", "[c, b] <= 1"];
 
 fn language_job(ctx: &Ctx, job: usize, iters: u64) -> Stats {
     let mut st = Stats::new();
@@ -600,6 +600,21 @@ pub fn run(ctx: &Ctx) -> (Stats, Spec) {
     let reps = ctx.tier.pick(1usize, 4usize);
     let parts = util::par_jobs(lens.len(), |j| long_list_job(ctx, lens[j], if lens[j] < 16 { 2 * reps } else { reps }));
     st.merge(crate::report::merge_all(parts));
+    // counting in an environment whose table holds millions of entries
+    {
+        let env = huge_env(ctx.tier.pick(2_200_000usize, 17_000_000usize));
+        let mut rng = Rng::stream(ctx.seed, "C05.huge", 0);
+        let uni = vec![1usize, 3, 5, 8];
+        let vars = vars_of(&uni);
+        for _ in 0..ctx.tier.pick(300, 5_000) {
+            let ops: Vec<(D, Tt)> = (0..1 + rng.usize(4)).map(|_| { let t = random_table_subset(&mut rng, 4); (build_in_env(&env, &t, &vars), t) }).collect();
+            let refs: Vec<&(D, Tt)> = ops.iter().collect();
+            check_const(&mut st, &env, &uni, &refs, rng.range(-1, ops.len() as i64 + 2), "huge-table");
+            let (l, r) = refs.split_at(refs.len() / 2);
+            check_lists(&mut st, &env, &uni, l, r, "huge-table");
+            st.bump("counts_in_a_huge_table");
+        }
+    }
     let deep: Vec<usize> = ctx.tier.pick(vec![18, 20, 22, 23], vec![18, 19, 20, 21, 22, 23, 24]);
     let parts = util::par_jobs(deep.len(), |j| deep_list_job(ctx, deep[j]));
     st.merge(crate::report::merge_all(parts));
